@@ -123,8 +123,12 @@ ASeal(k, s, id, n) ==
           /\ last' = [act |-> "TLSeal", k |-> k, scheme |-> s, id |-> id, n |-> n, expect |-> [res |-> "Ok", len |-> FrameLen(n)]]
           /\ phase' = "made"
 
+Bytes(c) == <<c.u, c.vk, c.vtam, c.wn, c.wtam, c.scheme>>
+Touched(c) == Bytes(c) # Bytes(Seal(PkOf(c.k), c.scheme0, DenMsg(c.id), c.wn))
 ATamper(o) ==
   /\ phase = "made" /\ Len(ct.ops) < Depth
+  \* at most one move on each payload (two could cancel byte-wise)
+  /\ (o.op = "W" => ct.wtam = "") /\ (o.op \in {"VFlip", "VSwap", "VOne"} => (ct.vtam = "" /\ ct.vk = Seal(PkOf(ct.k), ct.scheme0, DenMsg(ct.id), ct.wn).vk))
   /\ ct' = [ApplyOp(ct, o) EXCEPT !.ops = Append(@, o)]
   /\ last' = Quiet /\ UNCHANGED phase
 
@@ -133,12 +137,14 @@ ADecrypt(sr) ==
   /\ LET sig == SigDen(sr)
          out == Open(ct, sr.label, sig) IN
        last' = [act |-> "TLDecrypt", ct |-> CtRec(ct), sig |-> sr, expect |-> [out |-> out],
-                touched |-> (ct.ops # <<>>),
-                benign |-> (\A i \in 1..Len(ct.ops) : ct.ops[i].op = "W" /\ WOutcome(ct.wn, ct.ops[i].arg) = "M"),
+                touched |-> Touched(ct),
+                benign |-> LET o == Seal(PkOf(ct.k), ct.scheme0, DenMsg(ct.id), ct.wn) IN
+                             (ct.u = o.u /\ ct.vk = o.vk /\ ct.vtam = "" /\ ct.scheme = ct.scheme0 /\ WOutcome(ct.wn, ct.wtam) = "M"),
                 rightsig |-> (/\ sr.k = ct.k /\ sr.scheme = ct.scheme0 /\ sr.id = ct.id /\ sr.label = ct.scheme0 /\ sr.how = "honest"
                               /\ (sr.route = "shares" => sr.cnt >= sr.t)),
-                hardtouched |-> (\E i \in 1..Len(ct.ops) : ct.ops[i].op # "Relabel" /\ ~(ct.ops[i].op = "W" /\ WOutcome(ct.wn, ct.ops[i].arg) = "M")),
-                relabelled |-> (\E i \in 1..Len(ct.ops) : ct.ops[i].op = "Relabel"), curlabel |-> ct.scheme,
+                hardtouched |-> LET o == Seal(PkOf(ct.k), ct.scheme0, DenMsg(ct.id), ct.wn) IN
+                                  (ct.u # o.u \/ ct.vk # o.vk \/ ct.vtam # "" \/ WOutcome(ct.wn, ct.wtam) # "M"),
+                relabelled |-> (ct.scheme # ct.scheme0), curlabel |-> ct.scheme,
                 idpt |-> (GIsId(sig) \/ GIsId(ct.u))]
   /\ phase' = "judged" /\ UNCHANGED ct
 
